@@ -484,6 +484,14 @@ impl SortableStrVec {
         a_len.cmp(&b_len)
     }
 
+    /// Verification hook: the comparison kernel of the release-mode lexicographic sort on two byte strings
+    /// (it is only called from code under `cfg(not(debug_assertions))`, which a debug-profile harness never runs).
+    #[cfg(zipora_verif)]
+    pub fn verif_fast_lexicographic_cmp(a: &[u8], b: &[u8]) -> Ordering {
+        // SAFETY: both pointers are valid for reads of the given lengths
+        unsafe { Self::fast_lexicographic_cmp(a.as_ptr(), a.len(), b.as_ptr(), b.len()) }
+    }
+
     /// Optimized comparison sort implementation
     fn comparison_sort_optimized(&mut self) -> Result<()> {
         // Direct byte comparison on arena data for maximum performance
